@@ -41,9 +41,9 @@ def build(cfg):
     from amaranth_soc.csr.wishbone import WishboneCSRBridge
     from amaranth_soc.memory import MemoryMap
     cw, ratio, caw = cfg["cw"], cfg["ratio"], cfg["caw"]
-    m = Module()
     if cfg.get("regs"):
         return build_b(cfg)
+    m = Module()
     cbus = csr.Interface(addr_width=caw, data_width=cw, path=("csr",))
     cbus.memory_map = MemoryMap(addr_width=caw, data_width=cw)
     br = WishboneCSRBridge(cbus, data_width=cw * ratio)
@@ -58,15 +58,19 @@ def build(cfg):
 
 
 class Observer:
-    """obs = (t, xfer, lanes, prev_read)   t = -1: idle
+    """obs = (t, xfer, lanes, idx, pending)   t = -1: idle
        xfer = (adr, we, sel, flavour); lanes = tuple(captured CSR read data or -1)
-       prev_read = 1 if a CSR read strobe was issued in the previous cycle (the stub answers now)"""
+       idx = number of selected granules already accessed; pending = lane whose read data arrives in this
+       cycle (its read strobe was issued in the previous cycle) or -1.
+    The property fixes the acknowledge time, the number, order, address, direction and data of the CSR
+    accesses - not the cycle of each access - so accesses are consumed in order, anywhere in cycles
+    0..ratio of the transfer."""
     def __init__(self, cfg, h, comp):
         self.cfg = cfg
         self.cw, self.ratio = cfg["cw"], cfg["ratio"]
         self.ii, self.pi = comp.in_index, comp.probe_index
         self.order = comp.in_names
-        self.init = (-1, None, None, 0)
+        self.init = (-1, None, None, 0, -1)
         aw = h.meta["wb_aw"]
         if h.meta["wb_dw"] != self.cw * self.ratio or h.meta["wb_gran"] != self.cw or h.meta["nsel"] != self.ratio \
                 or aw != max(0, cfg["caw"] - log2(self.ratio)):
@@ -74,15 +78,18 @@ class Observer:
         else:
             self.meta_err = None
         sels = list(range(1 << self.ratio))
+        full = (1 << self.ratio) - 1
         if cfg.get("sel_thin"):
-            full = (1 << self.ratio) - 1
             sels = sorted({0, full} | {1 << i for i in range(self.ratio)} | {full ^ (1 << i) for i in range(self.ratio)})
         flav = (0, 1) if cfg.get("dat_tokens", 2) == 2 else (0,)
         self.rtoks = [lane_tok(3, self.cw, 0), lane_tok(5, self.cw, 1)][:cfg.get("r_tokens", 2)]
         self.xfers = [(adr, we, sel, fl) for adr in range(1 << aw) for we in (0, 1) for sel in sels for fl in flav]
         self.lmask = (1 << self.cw) - 1
+        top = (1 << aw) - 1
+        # not-a-transfer letters: the initiator may leave anything on adr/sel/we/dat_w while cyc or stb is low
         self._idle_letters = ([self.mk(0, 0, 0, 0, 0, 0, 0), self.mk(0, 1, 0, 0, 0, 0, 0), self.mk(0, 0, 1, 0, 0, 0, 0),
-                               self.mk(0, 1, 0, 1, 0, 0, 0)]
+                               self.mk(top, 0, 0, 1, full, self.dat(0), 0), self.mk(top, 1, 0, 1, full, self.dat(1 if len(flav) > 1 else 0), 0),
+                               self.mk(top, 0, 1, 0, full, 0, 0), self.mk(0, 1, 0, 0, 1, self.dat(0), 0)]
                               + [self.xl(x, 0) for x in self.xfers])
 
     def dat(self, fl):
@@ -100,19 +107,17 @@ class Observer:
         return self.mk(adr, 1, 1, we, sel, self.dat(fl), rd)
 
     def letters(self, obs):
-        t, xfer, lanes, prev_read = obs
-        rds = self.rtoks if prev_read else (0,)
+        t, xfer, lanes, idx, pending = obs
+        rds = self.rtoks if pending >= 0 else (0,)
         if t < 0:
-            if not prev_read:
-                return self._idle_letters
-            return [l[:self.ii["c_r_data"]] + (rd,) + l[self.ii["c_r_data"] + 1:] for l in self._idle_letters for rd in rds]
+            return self._idle_letters
         return [self.xl(xfer, rd) for rd in rds]
 
     def observe(self, obs, letter, outs):
         if self.meta_err:
             return dict(msg=self.meta_err, signature=dict(kind="metadata")), obs
         ii, pi = self.ii, self.pi
-        t, xfer, lanes, prev_read = obs
+        t, xfer, lanes, idx, pending = obs
         ratio = self.ratio
         cyc, stb = letter[ii["cyc"]], letter[ii["stb"]]
         rd_in = letter[ii["c_r_data"]]
@@ -121,47 +126,60 @@ class Observer:
             fl = 0 if letter[ii["dat_w"]] == self.dat(0) else 1
             xfer = (letter[ii["adr"]], letter[ii["we"]], letter[ii["sel"]], fl)
             lanes = (-1,) * ratio
+            idx, pending = 0, -1
         ack, rs, ws = outs[pi["ack"]], outs[pi["c_r_stb"]], outs[pi["c_w_stb"]]
         if t < 0:
             if ack or rs or ws:
                 return dict(msg=f"outside any transfer: ack={ack} csr r_stb={rs} w_stb={ws}",
                             signature=dict(kind="oracle", what="spurious")), obs
-            return None, (-1, None, None, 0)
+            return None, self.init
         adr, we, sel, fl = xfer
-        # the stub's answer to the strobe of the previous cycle arrives now
-        if 1 <= t <= ratio and not we and (sel >> (t - 1)) & 1:
-            lanes = lanes[:t - 1] + (rd_in,) + lanes[t:]
-        exp_rs = exp_ws = 0
-        if t < ratio and (sel >> t) & 1:
-            exp_rs, exp_ws = (0, 1) if we else (1, 0)
-        if (rs, ws) != (exp_rs, exp_ws):
-            return dict(msg=f"cycle {t} of a transfer (we={we}, sel={sel:#b}): csr r_stb={rs} w_stb={ws}, expected {exp_rs}/{exp_ws}",
-                        signature=dict(kind="oracle", what="strobe")), obs
-        if exp_rs or exp_ws:
-            ea = adr * ratio + t
+        if pending >= 0:       # the stub's answer to the read strobe of the previous cycle arrives now
+            lanes = lanes[:pending] + (rd_in,) + lanes[pending + 1:]
+        sel_list = [i for i in range(ratio) if (sel >> i) & 1]
+        npending = -1
+        if rs or ws:
+            if rs and ws:
+                return dict(msg=f"cycle {t}: CSR read and write strobe together", signature=dict(kind="oracle", what="strobe")), obs
+            if idx >= len(sel_list):
+                return dict(msg=f"cycle {t} of a transfer (we={we}, sel={sel:#b}): a CSR access beyond the {len(sel_list)} selected granule(s)",
+                            signature=dict(kind="oracle", what="strobe")), obs
+            if t > ratio:
+                return dict(msg=f"cycle {t}: CSR access in or after the acknowledge cycle of a ratio-{ratio} transfer",
+                            signature=dict(kind="oracle", what="strobe")), obs
+            g = sel_list[idx]
+            if bool(ws) != bool(we):
+                return dict(msg=f"cycle {t}: CSR {'write' if ws else 'read'} strobe during a {'write' if we else 'read'} transfer",
+                            signature=dict(kind="oracle", what="strobe")), obs
+            ea = adr * ratio + g
             if outs[pi["c_addr"]] != ea:
-                return dict(msg=f"granule {t}: CSR address {outs[pi['c_addr']]}, expected {ea} (= {adr} x {ratio} + {t})",
+                return dict(msg=f"access {idx} of the transfer: CSR address {outs[pi['c_addr']]}, expected {ea} (= {adr} x {ratio} + {g}; selected granules in ascending order)",
                             signature=dict(kind="oracle", what="csr_addr")), obs
-            if exp_ws:
-                ed = (self.dat(fl) >> (t * self.cw)) & self.lmask
+            if ws:
+                ed = (self.dat(fl) >> (g * self.cw)) & self.lmask
                 if outs[pi["c_w_data"]] != ed:
-                    return dict(msg=f"granule {t}: CSR w_data {outs[pi['c_w_data']]:#x}, expected lane {t} = {ed:#x}",
+                    return dict(msg=f"granule {g}: CSR w_data {outs[pi['c_w_data']]:#x}, expected lane {g} = {ed:#x}",
                                 signature=dict(kind="oracle", what="w_data")), obs
+            else:
+                npending = g
+            idx += 1
         exp_ack = 1 if t == ratio + 1 else 0
         if ack != exp_ack:
             return dict(msg=f"cycle {t} of a transfer (ratio {ratio}): ack={ack}, expected {exp_ack}",
                         signature=dict(kind="oracle", what="ack")), obs
         if exp_ack:
+            if idx != len(sel_list):
+                return dict(msg=f"acknowledged after {idx} CSR access(es); {len(sel_list)} granule(s) are selected (sel={sel:#b})",
+                            signature=dict(kind="oracle", what="strobe")), obs
             if not we:
                 dr = outs[pi["dat_r"]]
-                for lane in range(ratio):
-                    if (sel >> lane) & 1:
-                        got = (dr >> (lane * self.cw)) & self.lmask
-                        if got != lanes[lane]:
-                            return dict(msg=f"acknowledged read: lane {lane} = {got:#x}, expected granule {lane}'s CSR read data {lanes[lane]:#x}",
-                                        signature=dict(kind="oracle", what="dat_r")), obs
-            return None, (-1, None, None, 0)
-        return None, (t + 1, xfer, lanes, exp_rs)
+                for lane in sel_list:
+                    got = (dr >> (lane * self.cw)) & self.lmask
+                    if got != lanes[lane]:
+                        return dict(msg=f"acknowledged read: lane {lane} = {got:#x}, expected granule {lane}'s CSR read data {lanes[lane]:#x}",
+                                    signature=dict(kind="oracle", what="dat_r")), obs
+            return None, self.init
+        return None, (t + 1, xfer, lanes, idx, npending)
 
 
 # ---- harness B: through a real register file ---------------------------------------------------------
@@ -176,10 +194,16 @@ def build_b(cfg):
         def __init__(self, w):
             super().__init__({"f": csr.Field(action.RW, w)})
 
+    class RoReg(csr.Register, access="r"):
+        def __init__(self, w):
+            super().__init__({"f": csr.Field(action.R, w)})
+
     b = csr.Builder(addr_width=caw, data_width=cw)
     regs = []
-    for k, (w, off) in enumerate(cfg["regs"]):
-        regs.append(b.add(f"r{k}", Reg(w), offset=off))
+    for k, spec in enumerate(cfg["regs"]):
+        w, off = spec[0], spec[1]
+        ro = len(spec) > 2 and spec[2] == "r"
+        regs.append(b.add(f"r{k}", RoReg(w) if ro else Reg(w), offset=off))
     brg = csr.Bridge(b.as_memory_map())
     br = WishboneCSRBridge(brg.bus, data_width=cw * ratio)
     m = Module()
@@ -187,11 +211,16 @@ def build_b(cfg):
     m.submodules.br = br
     wb = br.wb_bus
     inputs = [("adr", wb.adr), ("cyc", wb.cyc), ("stb", wb.stb), ("we", wb.we), ("sel", wb.sel), ("dat_w", wb.dat_w)]
-    probes = [("ack", wb.ack), ("dat_r", wb.dat_r)] + [(f"data{k}", r.f.f.data) for k, r in enumerate(regs)]
+    probes = [("ack", wb.ack), ("dat_r", wb.dat_r), ("csr_r_stb", brg.bus.r_stb), ("csr_addr", brg.bus.addr)]
     meta = dict(wb_aw=wb.addr_width, regs=[])
     for k, r in enumerate(regs):
         info = brg.bus.memory_map.find_resource(r)
-        meta["regs"].append(dict(start=info.start, end=info.end, width=cfg["regs"][k][0]))
+        ro = len(cfg["regs"][k]) > 2 and cfg["regs"][k][2] == "r"
+        meta["regs"].append(dict(start=info.start, end=info.end, width=cfg["regs"][k][0], ro=ro))
+        if ro:
+            inputs.append((f"rin{k}", r.f.f.r_data))       # a value that changes every cycle
+        else:
+            probes.append((f"data{k}", r.element.r_data))   # what the register presents to the bus
     return Harness(m, inputs, probes, meta)
 
 
@@ -208,18 +237,29 @@ class ObserverB:
         self.toks = [0x0123456789ABCDEF & ((1 << (self.cw * self.ratio)) - 1),
                      0xFEDCBA9876543210 & ((1 << (self.cw * self.ratio)) - 1)]
         self.init = (-1, None, tuple(0 for _ in self.regs))
-        self._idle = [self.mk(0, 0, 0, 0, 0, 0)] + [self.mk(adr, 1, 1, we, full, tk) for adr in range(1 << aw)
-                                                      for we in (0, 1) for tk in (self.toks if we else self.toks[:1])]
+        self.ro = [k for k, r in enumerate(self.regs) if r["ro"]]
+        # read-only registers present a value that changes EVERY cycle (two complementary tokens per register)
+        rin_sets = [()]
+        for k in self.ro:
+            w = self.regs[k]["width"]
+            ta = 0x5A3C96E1F00F & ((1 << w) - 1)
+            rin_sets = [rs + ((k, v),) for rs in rin_sets for v in (ta, ta ^ ((1 << w) - 1))]
+        self.rin_sets = rin_sets
+        base = [(0, 0, 0, 0, 0, 0)] + [(adr, 1, 1, we, full, tk) for adr in range(1 << aw)
+                                       for we in (0, 1) for tk in (self.toks if we else self.toks[:1])]
+        self._idle = [self.mk(*b_, rins) for b_ in base for rins in rin_sets]
 
-    def mk(self, adr, cyc, stb, we, sel, dat_w):
+    def mk(self, adr, cyc, stb, we, sel, dat_w, rins=()):
         d = dict(adr=adr, cyc=cyc, stb=stb, we=we, sel=sel, dat_w=dat_w)
-        return tuple(d[n] for n in self.order)
+        for k, v in rins:
+            d[f"rin{k}"] = v
+        return tuple(d.get(n, 0) for n in self.order)
 
     def letters(self, obs):
         t, xfer, vals = obs
         if t < 0:
             return self._idle
-        return [self.mk(xfer[0], 1, 1, xfer[1], (1 << self.ratio) - 1, xfer[2])]
+        return [self.mk(xfer[0], 1, 1, xfer[1], (1 << self.ratio) - 1, xfer[2], rins) for rins in self.rin_sets]
 
     def word(self, adr, vals):
         """what a full-word read at Wishbone address adr returns according to the register model"""
@@ -234,7 +274,14 @@ class ObserverB:
     def observe(self, obs, letter, outs):
         ii, pi = self.ii, self.pi
         t, xfer, vals = obs
+        # a read-only register is captured when the CSR bus reads its first chunk: remember what it presented then
+        if outs[pi["csr_r_stb"]]:
+            for k in self.ro:
+                if outs[pi["csr_addr"]] == self.regs[k]["start"]:
+                    vals = vals[:k] + (letter[ii[f"rin{k}"]],) + vals[k + 1:]
         for k in range(len(self.regs)):
+            if k in self.ro:
+                continue
             if t < 0 and outs[pi[f"data{k}"]] != vals[k]:
                 return dict(msg=f"register {k} holds {outs[pi[f'data{k}']]:#x}, expected {vals[k]:#x} after the acknowledged transfers",
                             signature=dict(kind="oracle", what="storage")), obs
@@ -256,6 +303,8 @@ class ObserverB:
             nv = list(vals)
             for k, r in enumerate(self.regs):
                 lo, hi = adr * self.ratio, (adr + 1) * self.ratio
+                if k in self.ro:
+                    continue
                 if lo <= r["start"] and r["end"] <= hi:
                     v = 0
                     for ca in range(r["start"], r["end"]):
@@ -300,6 +349,9 @@ def configs(tier):
     out.append(dict(cw=16, ratio=4, caw=3, dat_tokens=1, r_tokens=2, elab_twice=True))
     # harness B: registers spanning several granules, aligned inside one Wishbone word
     out.append(dict(cw=8, ratio=2, caw=3, regs=[(16, 0), (12, 2), (8, 4)]))
+    # a wide READ-ONLY register whose value changes every cycle: the acknowledged word must be a snapshot
+    out.append(dict(cw=8, ratio=4, caw=3, regs=[(32, 0, "r"), (16, 4)]))
+    out.append(dict(cw=8, ratio=2, caw=3, regs=[(16, 0), (16, 2, "r"), (8, 4)]))
     out.append(dict(cw=8, ratio=4, caw=3, regs=[(32, 0), (20, 4)]))
     out.append(dict(cw=16, ratio=2, caw=2, regs=[(32, 0), (17, 4)]))
     if not quick:
